@@ -43,6 +43,8 @@ def install(I):
                 raise Unsupported("multi-variable quantifier over a non-set domain")
             x = z3.Const(core.fresh_name("q_" + "_".join(names)), keysort(spec.ekind))
             elem = spec.elem(x, st)
+            if type(elem).__name__ == "UPair":
+                elem = (elem.u, elem.v)
             items = list(elem) if isinstance(elem, tuple) else I.concrete_items(elem)
             if len(items) != len(names):
                 raise Unsupported("quantifier: %d names for %d components" % (len(names), len(items)))
